@@ -429,13 +429,13 @@ def run_job(job, log):
     ub = [p for p in failing if ubrx.search(desc(p))]
     failing = [p for p in failing if not ubrx.search(desc(p))]
     res['ub_reports'] = [desc(p) for p in ub][:20]
+    wit = [p for p in failing if 'VF_WITNESS' in p.get('description', '')]
+    failing = [p for p in failing if 'VF_WITNESS' not in p.get('description', '')]
     if job.decisive:
         rx = re.compile(job.decisive)
         ignored = [p for p in failing if not rx.search(desc(p))]
         failing = [p for p in failing if rx.search(desc(p))]
         res['ignored_failures'] = [desc(p) for p in ignored][:20]
-    wit = [p for p in failing if 'VF_WITNESS' in p.get('description', '')]
-    failing = [p for p in failing if 'VF_WITNESS' not in p.get('description', '')]
     has_wit = any('VF_WITNESS' in p.get('description', '') for p in props)
     unwind_fail = [p for p in failing if 'unwinding assertion' in p.get('description', '')]
     failing = [p for p in failing if 'unwinding assertion' not in p.get('description', '')]
